@@ -108,6 +108,10 @@ func validService(r *rand.Rand, id string) M {
 		s["priority"] = 1
 		s["recipientKeys"] = []interface{}{"a", "b"}
 	}
+	// further members keep whatever value they have, also the ones Go calls zero
+	if r.Intn(4) == 0 {
+		s[pick(r, []string{"description", "note", "accept"})] = pick(r, []interface{}{nil, false, 0, "", []interface{}{}, M{}})
+	}
 	return s
 }
 
@@ -325,7 +329,9 @@ var svcMuts = []mut{
 	{"svc/type-31", func(r *rand.Rand, p M) { firstService(p)["type"] = ident(r, 31) }},
 	{"svc/type-30-ok", func(r *rand.Rand, p M) { firstService(p)["type"] = ident(r, 30) }},
 	{"svc/type-multibyte", func(r *rand.Rand, p M) { firstService(p)["type"] = strings.Repeat("é", 14+r.Intn(3)) }},
-	{"svc/type-30-two-byte-characters-ok", func(r *rand.Rand, p M) { firstService(p)["type"] = strings.Repeat(pick(r, []string{"é", "ü", "Ж"}), 30) }},
+	{"svc/type-30-two-byte-characters-ok", func(r *rand.Rand, p M) {
+		firstService(p)["type"] = strings.Repeat(pick(r, []string{"é", "ü", "Ж"}), 30)
+	}},
 	{"svc/type-31-two-byte-characters", func(r *rand.Rand, p M) { firstService(p)["type"] = strings.Repeat("é", 31) }},
 	{"svc/endpoint-with-fragment-ok", func(r *rand.Rand, p M) {
 		u := pick(r, []string{"https://example.com#didcomm", "https://example.com/#f", "https://example.com/a?b=c#d", "did:example:123#svc", "https://example.com#"})
